@@ -485,6 +485,8 @@ def run(repo, rep):
     rep.clause("C19-q", "the table generators evaluate the real function at the real input: finite_lut_value passes its argument unchanged and replaces only an OverflowError")
     rep.clause("C19-r", "the softmax exp table's input scaling is saturated at 2^31 - 1 before it is quantised (reference clamp)")
     rule_round11(repo, rep)
+    rep.clause("C19-t", "a table entry is round(f(x) / output scale) + output zero point: the zero point is outside the rounding in every 8-bit table generator (sibling agreement with the reference)")
+    rule_round_then_zero_point(repo, rep)
     rep.clause("C19-s", "a constant folded through QUANTIZE is round(value / scale) like the reference kernel [rule shared with C09-z]")
     from . import c09 as _c09s
 
@@ -873,3 +875,22 @@ def rule_round11(repo, rep):
                 bounds.append(v)
         ok = any(abs(b - (2 ** 31 - 1)) < 1 for b in bounds)
     rep.check(ok, "C19-r", ssite, f"`{arg}` is saturated at 2^31 - 1 before quantise_scale", f"`{str(norm(defs[0]))[:90] if defs else None}`: no saturation - for beta * input_scale >= 32 quantise_scale returns (0, 16) and all 256 exp entries become 0x7fffffff")
+
+
+def rule_round_then_zero_point(repo, rep):
+    """(t) a table entry is round(f(x) / output scale) + output zero point, as in the reference's LUTPopulate: the zero point is added after
+    the rounding. Rounding (zero point + quotient) rounds half away from zero around the wrong origin - with a negative zero point an exact
+    tie goes down instead of up. In every 8-bit table generator the argument of round_away_zero does not contain the output zero point."""
+    n = 0
+    for mn, q in (("tflite_graph_optimiser", "convert_to_lut8"), ("lut", "create_lut_8bit_op")):
+        m = repo.mod(mn)
+        fn = m.func(q)
+        zps = {str(norm(st.targets[0])) for st in ast.walk(fn) if isinstance(st, ast.Assign) and str(norm(st.value)).endswith("ofm.quantization.zero_point")} | {"ofm.quantization.zero_point", "op.ofm.quantization.zero_point"}
+        for c in ast.walk(fn):
+            if isinstance(c, ast.Call) and (call_name(c) or "") == "round_away_zero" and c.args:
+                n += 1
+                inside = [str(norm(x)) for x in ast.walk(c.args[0]) if str(norm(x)) in zps]
+                rep.check(not inside, "C19-t", f"{m.rel}:{q}", f"`{str(norm(c))[:70]}` rounds the scaled value before the zero point is added",
+                          f"the output zero point `{inside[0] if inside else ''}` is inside the rounding: an exact tie with a negative zero point is rounded the wrong way (int8 sigmoid, output scale 1.0, zero point -128, x = 0: -128 where the reference has -127)")
+    if n < 2:
+        raise AnalysisError(f"8-bit table generators: {n} roundings found")
